@@ -110,6 +110,9 @@ class RequestHandlerBase(MethodView):
                             del args[key]
                 except KeyError:
                     pass
+        for drm_name in DrmSystem.values():
+            # DrmContext reads these parameters directly from the request
+            self.check_license_url(args.get(f'{drm_name}_la_url'))
         options = OptionsRepository.convert_cgi_options(args, defaults=defaults)
         if features is not None:
             options.remove_unsupported_features(features)
@@ -118,6 +121,15 @@ class RequestHandlerBase(MethodView):
         self.check_option_values(options)
         options.add_field('mode', mode)
         return options
+
+    # largest number of characters of a license URL. A PlayReady Object
+    # stores it (XML escaped, UTF-16) in a record with a 16 bit length
+    MAX_LICENSE_URL_LENGTH: int = 4096
+
+    @staticmethod
+    def check_license_url(url: str | None) -> None:
+        if url is not None and len(url) > RequestHandlerBase.MAX_LICENSE_URL_LENGTH:
+            raise ValueError(f'license URL of {len(url)} characters is too long')
 
     # largest number of seconds that is accepted for an option that is
     # used as a time span (one hundred years)
@@ -139,6 +151,8 @@ class RequestHandlerBase(MethodView):
         for drm_name, _locations in options.drmSelection:
             if drm_name not in DrmSystem.values():
                 raise ValueError(f'Unknown DRM system "{drm_name}"')
+        for drm_name in DrmSystem.values():
+            RequestHandlerBase.check_license_url(options[drm_name].licenseUrl)
         if (
                 options.utcMethod is not None and
                 options.utcMethod not in UTCMethod.cgi_choices):
